@@ -210,6 +210,7 @@ def c01(ck):
                "6 input back-ends x 4 APIs (counted input operations) and 8 loader configurations; distinct = distinct input texts")
     ck.assumptions = ["panics are caught with catch_unwind in a build with debug assertions and overflow checks",
                       "a spin is observed as the WORKCAP/EVENTCAP panic of the counting input wrapper or as a process time-out",
+                      "work other than input operations is observed as CPU time (on-CPU nanoseconds of the measuring thread) at two input sizes 16x apart",
                       "stack exhaustion by deep nesting is owned by C11 (its inputs are not in this pool)"]
     pool = full_pool(ck)
     pipeline_trace(ck, pool, 3000 if ck.tier == "quick" else 100000, maxlen=80 if ck.tier == "quick" else 200)
@@ -243,12 +244,25 @@ def c01(ck):
         if r["k"] == "BAD":
             ck.violation("panic:" + json.dumps(r["t"]) + ":" + r["cfg"], "real code panicked/spun on %r via %s: %s" % (r["t"][:80], r["cfg"], r["panic"][:200]), r)
     work = [r for r in recs if r["k"] == "WORK"]
+    # scaling of CPU time over 35 input families x 3 interfaces (work that is not an input operation)
+    sf = ck.wd("scale.ndjson")
+    sc = vh_json(["scale", "--out", sf] + (["--base", "50000"] if ck.tier == "thorough" else []), timeout=3600)
+    scale = read_ndjson(sf)
+    ck.evaluations += 5 * len(scale)
+    ck.extra["scaling_scenarios"] = len(scale)
+    ck.extra["worst_scaling"] = sc["worst"]
+    work += scale
     wf = ck.wd("work.ndjson")
     write_ndjson(wf, work)
     j = judge(ck, "Trace_Work", wf)
     for rej in j.rejects:
         r = work[rej[0] - 1]
-        ck.violation("work:" + json.dumps(r["t"]), "input of length %d needed %d input operations (bound %s): %s" % (r["len"], r["work"], "64(len+1)+256", rej[1]), r)
+        if r["k"] == "SCALE":
+            ck.violation("scale:%s:%s" % (r["shape"], r["api"]), "input family %s through %s: %d characters took %d us of CPU time, %d characters %s — %s" % (
+                r["shape"], r["api"], r["len1"], r["t1us"], r["len2"], ("more than %d ms (stopped)" % r["limit_ms"]) if r["timed_out"] else ("%d us" % r["t2us"]), rej[1]), r)
+        else:
+            ck.violation("work:" + json.dumps(r["t"]), "input of length %d needed %d input operations (bound %s): %s" % (r["len"], r["work"], "64(len+1)+256", rej[1]), r)
+    work = [r for r in work if r["k"] == "WORK"]
     ck.extra["worst_ops_per_char"] = round(s["worst_ratio"], 2)
     ck.extra["lengths_judged"] = len(work)
     ck.exhaustive = False
